@@ -155,12 +155,10 @@ func (r *armoredReader) Read(p []byte) (int, error) {
 	if bytes.ContainsAny(line, "\r\n") {
 		return 0, r.setErr(errors.New("unexpected newline character"))
 	}
-	r.unread = r.buf[:]
-	n, err := base64.StdEncoding.Strict().Decode(r.unread, line)
+	n, err := base64.StdEncoding.Strict().Decode(r.buf[:], line)
 	if err != nil {
 		return 0, r.setErr(err)
 	}
-	r.unread = r.unread[:n]
 
 	if n < format.BytesPerLine {
 		line, err := getLine()
@@ -173,6 +171,9 @@ func (r *armoredReader) Read(p []byte) (int, error) {
 		r.setErr(drainTrailing())
 	}
 
+	// Only make the decoded bytes available once the line has been accepted,
+	// so that a Read that fails leaves nothing pending for the next call.
+	r.unread = r.buf[:n]
 	nn := copy(p, r.unread)
 	r.unread = r.unread[nn:]
 	return nn, nil
